@@ -17,7 +17,6 @@ ALL_FORMATS = G.FORMATS
 UNMODELLED = [f for f in ALL_FORMATS if f not in MODELLED]    # format autodetection and alphabet guessing are modelled (Msafile/Guess.lean); not reachable from the harness: the ".gz" suffix branch of esl_msafile_GuessFileFormat (esl_buffer_Open pipes such files through gzip)
 
 LEAK_KEY = None
-CHECK_SELEX_KEY = "C01:check-selex:plain-anchor-uaf"
 NUL_ANNOTATION_KEY = "C01:annotation:embedded-nul"
 GS_AFTER_BLOCK_KEY = "C01:stockholm:gs-after-last-block"
 
@@ -97,8 +96,8 @@ class C01(Prop):
                   "esl_msafile_GuessFileFormat is modelled but cannot be driven through the harness (esl_buffer_Open pipes such files through gzip). Trusted: Lean kernel + propext/Classical.choice/Quot.sound; fidelity of the hand models is checked (not proved) by the "
                   "differential run; ESL_BUFFER's refinement to the abstract line reader is property C05 (SELEX line pointers are abstracted to line contents); keyhash "
                   "lookups are abstracted to first-index-by-name (C19); allocation never fails; leaks are outside the model (LeakSanitizer per operation). "
-                  "C01:selex-stream:stable-anchor-uaf was repaired by 188d0b6 (SELEX inputs of any size now go through stream and file-mode sources with every page size). Known finding "
-                  "C01:check-selex:plain-anchor-uaf (found when the restriction was lifted): msafile_check_selex() keeps <firstname> under a plain anchor - autodetected inputs on stream/file sources stay within one page until the proposed one-line fix lands.")
+                  "No known finding: C01:selex-stream:stable-anchor-uaf was repaired by 188d0b6 and C01:check-selex:plain-anchor-uaf (msafile_check_selex kept <firstname> under a plain anchor; found when the "
+                  "one-page restriction was lifted) by a79e6aa: SELEX and autodetected inputs of any size go through stream and file-mode sources with every page size.")
     diverge_is_violation = True     # every op is a deterministic function of (bytes, format, alphabet, source) that the model specifies exactly (all ten readers + the open path)
     quick_budget_s = 75
     thorough_budget_s = 900
@@ -150,9 +149,10 @@ class C01(Prop):
         # item 8 (fixed by 188d0b6: buffer_refill() no longer moves / reallocs the window under a stable anchor): plain regression cases
         for src, ps in (("stream", 0), ("file", 0), ("stream", 16), ("file", 64), ("stream", 4096)):
             add("item8-selex-%s-%d" % (src, ps), selex_witness(), "selex", "text", src, ps)
-            # one block only: with a second block msafile_check_selex() compares against its dangling <firstname> (CHECK_SELEX_KEY)
             add("item8-auto-selex-%s-%d" % (src, ps), selex_witness(), "auto", "guess", src, ps)
-        add("check-selex-two-blocks-stream", selex_witness() + b"\n" + selex_witness(), "auto", "text", "stream", 0, known_key=CHECK_SELEX_KEY)
+        # a79e6aa: msafile_check_selex() kept <firstname> under a plain anchor (use-after-free at the second block, autodetection from a stream)
+        for src, ps in (("stream", 0), ("stream", 16), ("file", 64), ("file", 0)):
+            add("check-selex-two-blocks-%s-%d" % (src, ps), selex_witness() + b"\n" + selex_witness(), "auto", "text", src, ps)
         phy = (" 72 110\n" + "".join("seq%03d    %s\n" % (i, "ACDEFGHIKLMNPQRSTVWY" * 5 + "ACDEFGHIKL") for i in range(72))).encode()
         for src, ps in (("stream", 0), ("stream", 16), ("file", 64)):
             add("item8-auto-phylip-%s-%d" % (src, ps), phy, "auto", "text", src, ps)
@@ -181,9 +181,6 @@ class C01(Prop):
         src = rng.choice(["stream", "stream", "file", "file", "allfile", "mmap"])
         if n == 0 and src == "mmap": src = "allfile"      # mmap() of an empty file cannot happen without the hook (empty files are slurped)
         ps = rng.choice([2, 3, 4, 5, 7, 8, 16, 17, 64, 512, 4096, 0]) if src in ("stream", "file") else 0
-        if fmt == "auto" and src in ("stream", "file"):    # known finding CHECK_SELEX_KEY: autodetection keeps a line pointer under a plain anchor
-            ps = 0
-            if n >= 3900: src = "allfile"
         out.append((src, ps))
         return out
 
@@ -295,7 +292,6 @@ class C01(Prop):
         for nm, data, exp in GROWTH.stockholm_cases(rng, quick):
             f2 = rng.choice(["stockholm", "pfam", "auto"]); a2 = rng.choice(["amino", "dna", "text", "guess"])
             s2, p2 = rng.choice([("stream", 16), ("file", 64), ("stream", 0), ("allfile", 0), ("mem", 0)])
-            if f2 == "auto" and s2 in ("stream", "file"): s2, p2 = ((s2, 0) if len(data) < 3900 else ("allfile", 0))     # CHECK_SELEX_KEY
             ops = [self._op(data, "stockholm", "text", "mem", 0), self._op(data, f2, a2, s2, p2)]
             stats["kinds"]["growth-sto"] = stats["kinds"].get("growth-sto", 0) + 1
             out.append({"name": "growth:" + nm, "ops": ops, "expect": exp})
@@ -323,8 +319,8 @@ class C01(Prop):
         for data, fmt, abc, src, sfx in AUTOGEN.build(rng, 0.03 if quick else 0.4):
             ops = [self._op(data, fmt, abc, src, 0, sfx if src != "mem" else None)]
             if src != "mem" and sfx is None: ops.append(self._op(data, fmt, abc, "mem", 0))
-            if src == "mem" and rng.random() < 0.35 and (fmt != "auto" or len(data) < 3900):      # autodetection / guessing from buffered sources
-                ops.append(self._op(data, fmt, abc, rng.choice(["stream", "file"]), rng.choice([3, 16, 64, 512, 0]) if fmt != "auto" else 0))
+            if src == "mem" and rng.random() < 0.35:      # autodetection / guessing from buffered sources under small pages
+                ops.append(self._op(data, fmt, abc, rng.choice(["stream", "file"]), rng.choice([3, 16, 64, 512, 0])))
             stats["kinds"]["open"] = stats["kinds"].get("open", 0) + 1
             stats["formats"][fmt] = stats["formats"].get(fmt, 0) + 1
             stats["abc"][abc] = stats["abc"].get(abc, 0) + 1
